@@ -139,6 +139,12 @@ func gen(rng *rand.Rand, maxOps int) Scenario {
 		sc.Ops = append(sc.Ops, Op{Kind: "join", M: m, Group: "g1", Filter: f, QoS: 1}, Op{Kind: "join", M: other, Group: "g1", Filter: f, QoS: 1},
 			Op{Kind: "plain", M: m, Filter: f, QoS: 1}, Op{Kind: "publish", Topic: t, QoS: 1}, Op{Kind: "disconnect", M: m}, Op{Kind: "publish", Topic: t, QoS: 1})
 		if online[m] {
+			// once its expiry interval has passed the member has left, swept by the broker or not: what is published
+			// from then on goes to the remaining member
+			sc.Ops = append(sc.Ops, Op{Kind: "expire_wait", M: m})
+			for k := 0; k < 4; k++ {
+				sc.Ops = append(sc.Ops, Op{Kind: "publish", Topic: t, QoS: byte(1 + k%2)})
+			}
 			sc.Ops = append(sc.Ops, Op{Kind: "expire", M: m})
 		} else {
 			sc.Ops = append(sc.Ops, Op{Kind: "reconnect", M: m, Clean: true})
@@ -292,7 +298,7 @@ func runW(sc *Scenario) (fs []finding, obs map[string]int, hist map[string]int, 
 	for oi, o := range sc.Ops {
 		m := o.M
 		switch o.Kind {
-		case "disconnect", "drop", "terminate", "reconnect", "expire":
+		case "disconnect", "drop", "terminate", "reconnect", "expire", "expire_wait":
 			if !barrier(m) {
 				return
 			}
@@ -362,6 +368,14 @@ func runW(sc *Scenario) (fs []finding, obs map[string]int, hist map[string]int, 
 			}
 			ms[m].online = false
 			endSession(m)
+		case "expire_wait":
+			if d := time.Until(closedAt[m].Add(1700 * time.Millisecond)); d > 0 {
+				time.Sleep(d)
+			}
+			if ms[m].exists && !ms[m].online {
+				endSession(m) // expired: no longer a member of anything (what was queued for it before is unobservable)
+				obs["publishes_after_expiry_before_any_sweep"]++
+			}
 		case "expire":
 			// OnClosed was observed at closedAt; 1.7 s later the 1 s session has certainly expired (a sleep can only last longer)
 			if d := time.Until(closedAt[m].Add(1700 * time.Millisecond)); d > 0 {
